@@ -20,3 +20,9 @@ return True, "subst"
 """
 
 harnesses = harnesses_for("C12", POST)
+
+
+def extra_checks(tier, seed, replay_dir, active_kf=()):
+    """E2: exact IEEE-754 execution of the float branch (engine/fpsym.py) - see harness/fp_extra.py"""
+    from harness import fp_extra
+    return fp_extra.run("C12", tier, replay_dir, active_kf)
